@@ -319,6 +319,8 @@ class SymInt:
 
     # -- comparisons
     def _cmp(self, o, op):
+        if isinstance(o, float) and (o != o or o in (float("inf"), float("-inf"))):
+            return bool(op(0.0, o))  # every integer compares with inf / NaN the way 0.0 does
         if _is_floatlike(o):
             return _wrapb(op(z3.ToReal(self.z), z3.RealVal(float(o))))
         if isinstance(o, SymReal):
@@ -600,6 +602,8 @@ class SymReal:
     def _cmp(self, o, op):
         if not self._ok(o):
             return NotImplemented
+        if isinstance(o, float) and (o != o or o in (float("inf"), float("-inf"))):
+            return bool(op(0.0, o))  # every finite real compares with inf / NaN the way 0.0 does
         return _wrapb(op(self.z, self._r(o)))
 
     def __lt__(self, o):
